@@ -78,9 +78,13 @@ back.close()
 """
 
 
-def gen_items(rng, n=None):
+def gen_items(rng, n=None, big=True):
     n = rng.choice([0, 1, 2, 3, 5, 8]) if n is None else n
-    return [rng.choice([i, str(i), (i, None), [i], b"b%d" % i]) for i in range(n)]
+    items = [rng.choice([i, str(i), (i, None), [i], b"b%d" % i]) for i in range(n)]
+    if big and items and rng.random() < 0.15:
+        # one payload beyond any plausible small-message threshold (frames of concurrent senders must not interleave)
+        items[rng.randrange(len(items))] = bytes([65 + rng.randrange(26)]) * rng.choice([9000, 70000])
+    return items
 
 
 def gen_conversation(rng, kinds, tag):
@@ -389,6 +393,8 @@ def run_program(prog, chooser, seed, line_budget=0, cut_w2i=None, remote_backend
 
 
 def canon_item(x):
+    if isinstance(x, (bytes, bytearray)) and len(x) > 200:
+        return "bytes:%d:%r" % (len(x), bytes(x[:4]))
     return repr(x)
 
 
